@@ -1,7 +1,7 @@
 SPECIFICATION Spec
 CONSTANTS
     LeafNames = {"a", "b"}
-    UserTimes <- MCUserTimesQ
+    UserTimes <- MCUserTimes
     MaxDepth = 2
     TimeChoices <- MCTimeChoices
     MaxOps = 2
